@@ -366,7 +366,9 @@ def execute(scn, L):
         recs, end, exc = read_twice(w, data,
                                     block_size=scn.get('block_size'),
                                     actor='R', abandon=sx['reuse'] or None,
-                                    extras=sx)
+                                    extras=sx,
+                                    abandon_how=['close', 'throw', 'drop'][
+                                        sx['reuse'] % 3])
 
         if end == 'raise' and not isinstance(exc, L.BaseDiffXError) and \
            isinstance(exc, (RuntimeError, StopIteration)):
